@@ -157,9 +157,14 @@ class Parser:
                 c = self.ev(st.test)
                 if c[0] != "const":
                     raise NotParsed("branch on a hole")
-                self.run(st.body if c[1] else st.orelse)
+                if self.run(st.body if c[1] else st.orelse) is not None:
+                    return "next line"
             elif isinstance(st, ast.Expr) and isinstance(st.value, ast.Constant):
                 continue
+            elif isinstance(st, ast.Pass):
+                continue
+            elif isinstance(st, ast.Continue):
+                return "next line"      # the branch is done with this line
             else:
                 raise NotParsed("parser statement not understood: " + unparse(st)[:60])
 
